@@ -292,8 +292,8 @@ def seg_set(rng, n, quick):
         pairs = [(i, j) for i in range(1, n) for j in range(i + 1, n)]
         if quick and len(pairs) > 40:
             pairs = rng.sample(pairs, 40)
-        elif len(pairs) > 600:
-            pairs = rng.sample(pairs, 600)
+        elif len(pairs) > 150:
+            pairs = rng.sample(pairs, 150)
         segs += [list(p) for p in pairs]
     for _ in range(6 if quick else 30):
         segs.append(rand_cuts(rng, n))
@@ -319,7 +319,7 @@ def c06(ctx):
             cases = rng.sample(cases, 150)
         for ci, case in enumerate(cases):
             nv = cz.num_variants(case["ms"])
-            for v in ([rng.randrange(nv)] if ctx.quick else rng.sample(range(nv), min(nv, 3))):
+            for v in ([rng.randrange(nv)] if ctx.quick else rng.sample(range(nv), min(nv, 2))):
                 c = cz.concretize(case["ms"], v, case["cut"])
                 data = bytes(c.data)
                 digs, ids, ev = {}, [], []
